@@ -14,7 +14,7 @@ import z3
 
 from spec import ops
 from . import source, types as ty
-from .values import (ADict, AList, ASet, BoundMethod, BreakSignal, ClassRef, ContinueSignal, Env,
+from .values import (ADict, AList, ASet, BoundMethod, BreakSignal, ClassRef, ContinueSignal, Env, FStr,
                      ModRef, Opaque, OutOfSubset, PathEnd, PyRaise, ReturnSignal, SClosure, SFun,
                      SObj, fresh_name)
 
@@ -388,6 +388,10 @@ class Exec:
             return True
         if isinstance(v, (SClosure, SFun, BoundMethod, ClassRef)):
             return True
+        if isinstance(v, FStr):
+            if any(x for x in v.skeleton if x):
+                return True
+            raise OutOfSubset("truth of an f-string without literal part")
         raise OutOfSubset(f"truth of {type(v).__name__}")
 
     # ------------------------------------------------------------------ names
@@ -495,9 +499,19 @@ class Exec:
                     parts.append(v)
         if not sym:
             return "".join(parts)
-        if all(isinstance(p, str) or (is_z3(p) and z3.is_string(p)) for p in parts):
-            return z3.Concat(*[lift(p) for p in parts]) if len(parts) > 1 else lift(parts[0])
-        return Opaque("fstring")
+        if any(isinstance(p, Opaque) for p in parts):
+            return Opaque("fstring")
+        self.assumptions_used.add(
+            "f-strings with symbolic parts are modelled as tuples (skeleton, components): equal iff same skeleton and "
+            "equal components (no separator inside a component; str(int) injective)")
+        skel, comps = [], []
+        for p in parts:
+            if isinstance(p, str):
+                skel.append(p)
+            else:
+                skel.append(None)
+                comps.append(p)
+        return FStr(skel, comps)
 
     def e_UnaryOp(self, node, env):
         v = self.eval(node.operand, env)
@@ -627,6 +641,20 @@ class Exec:
                             raise OutOfSubset("== on objects with __eq__")
                 return l is r
             return False
+        if isinstance(l, FStr) or isinstance(r, FStr):
+            if isinstance(l, FStr) and isinstance(r, FStr):
+                if l.skeleton != r.skeleton or len(l.comps) != len(r.comps):
+                    return False
+                return ops.And(*[self.py_eq(a, b) for a, b in zip(l.comps, r.comps)]) if l.comps else True
+            other = r if isinstance(l, FStr) else l
+            f = l if isinstance(l, FStr) else r
+            if isinstance(other, str):
+                lits = [x for x in f.skeleton if x]
+                if other == "" and lits:
+                    return False
+                if lits and not all(x in other for x in lits):
+                    return False
+            raise OutOfSubset("f-string compared with a plain string")
         if isinstance(l, ClassRef) and isinstance(r, ClassRef):
             return l.name == r.name
         if isinstance(l, (Opaque, AList, ADict, ASet)) or isinstance(r, (Opaque, AList, ADict, ASet)):
